@@ -6,8 +6,13 @@ def _ergodic_stochastic(T):
     import numpy as np
     Td = np.asarray(T.toarray() if hasattr(T, 'toarray') else T, dtype=float)
     n = len(Td)
-    reach = np.linalg.matrix_power((Td > 0).astype(float) + np.eye(n), n) > 0
-    return bool(np.allclose(Td.sum(axis=1), 1)) and bool((Td >= 0).all()) and bool(reach.all())
+    if n > 60:
+        from scipy.sparse.csgraph import connected_components
+        import scipy.sparse as sp
+        ok = connected_components(sp.csr_matrix(Td > 0), directed=True, connection='strong')[0] == 1
+    else:
+        ok = bool((np.linalg.matrix_power((Td > 0).astype(float) + np.eye(n), n) > 0).all())
+    return bool(np.allclose(Td.sum(axis=1), 1)) and bool((Td >= 0).all()) and ok
 
 
 class Eigenspectrum(Contract):
@@ -29,8 +34,22 @@ class Eigenspectrum(Contract):
         if left:
             pi = np.real(vecs[:, 0])
             out += [('leading-left-vector-is-stationary', bool(np.allclose(pi @ Td, pi, atol=1e-8))),
-                    ('stationary-vector-is-a-distribution', abs(pi.sum() - 1) < 1e-8 and bool(np.all(pi >= -1e-10)))]
+                    ('stationary-vector-is-a-distribution', abs(pi.sum() - 1) < 1e-8 and bool(np.all(pi >= -1e-8)))]      # (iterative sparse solver: components of order -1e-10 occur)
         return out
+
+
+class EqProbs(Contract):
+    key = 'enspara/msm/transition_matrices.py::eq_probs'
+
+    def requires(self, L, A, G):
+        return [('row-stochastic', _ergodic_stochastic(A['T']))]
+
+    def ensures(self, L, A, N, R, G, V):
+        import numpy as np
+        T = A['T']
+        pi = np.asarray(R, dtype=float).flatten()
+        lhs = np.asarray(T.T @ pi if hasattr(T, 'toarray') else pi @ np.asarray(T)).flatten()
+        return [('stationary', bool(np.allclose(lhs, pi, atol=1e-8))), ('distribution', abs(pi.sum() - 1) < 1e-8 and bool((pi >= -1e-8).all()) and len(pi) == T.shape[0])]
 
 
 class ImpliedTimescales(Contract):
